@@ -199,7 +199,11 @@ func describeValue(p *prog.Program, ev *evaluator, v ssa.Value, row *Row) {
 		// the closure the factory returns
 		for _, b := range callee.Blocks {
 			if ret, ok := b.Instrs[len(b.Instrs)-1].(*ssa.Return); ok && len(ret.Results) == 1 {
-				if mc, ok := ret.Results[0].(*ssa.MakeClosure); ok {
+				rv := ret.Results[0]
+				if ct, ok := rv.(*ssa.ChangeType); ok {
+					rv = ct.X // func literal converted to the named handler type
+				}
+				if mc, ok := rv.(*ssa.MakeClosure); ok {
 					row.Fn = mc.Fn.(*ssa.Function)
 				}
 			}
